@@ -1,7 +1,1070 @@
-//! C07 — correspondence harness (stub; see /verif/AGENT_GUIDE.md).
+//! C07 — epoch length / difficulty / issuance arithmetic: the real functions are called directly on
+//! boundary-biased random inputs and compared with the Lean model (lean/CkbVerif/Model/Epoch.lean
+//! through lean/CkbVerif/Driver/C07.lean); the oracle evaluates the property's equalities and
+//! inequalities on the implementation's outputs with independent wide-integer arithmetic (U1024).
+//!
+//! Protocol (numbers decimal or 0x-hex; `fail` = the implementation panicked or returned Err):
+//!   consts                                  -> tau=.. min=.. max=.. ort=n/d bits=24,16,16 target=..
+//!   c2t <compact>                           -> <target hex> <overflow 0|1>     compact_to_target
+//!   t2c <target>                            -> <compact>                       target_to_compact
+//!   c2d <compact>                           -> <difficulty hex>                compact_to_difficulty
+//!   d2c <difficulty>                        -> <compact> | fail                difficulty_to_compact
+//!   pow <compact> <digest>                  -> 0|1     EaglesongPowEngine::verify (digest = eaglesong of
+//!                                                      the real header's pow message, computed here)
+//!   enf <full_value>                        -> <number> <index> <length> wf=0|1 gen=0|1
+//!   enfnew <number> <index> <length>        -> <full_value>                    new_unchecked
+//!   succ <self> <pred>                      -> 0|1                             is_successor_of
+//!   reward <start> <len> <base> <rem> <n>   -> <shannons> | fail               EpochExt::block_reward
+//!   sec <start> <len> <epoch_issuance> <n>  -> <shannons> | fail               secondary_block_issuance
+//!   prim <initial> <halving> <epoch_number> -> <shannons> | fail               Consensus::primary_epoch_reward
+//!   next <T> <initial> <halving> <ortN> <ortD> <number> <base> <rem> <prevHR> <start> <len>
+//!        <hdr_number> <hdr_compact> <uncles> <dur_ms>
+//!                                           -> fail | <number> <base> <rem> <hr hex> <start> <len> <compact>
+//!                                              Consensus::next_epoch_ext through a mock EpochProvider
 use crate::common::*;
+use ckb_chain_spec::consensus::{Consensus, ConsensusBuilder};
+use ckb_pow::{EaglesongPowEngine, PowEngine};
+use ckb_rational::RationalU256;
+use ckb_traits::{BlockEpoch, EpochProvider};
+use ckb_types::{
+    U256,
+    core::{BlockExt, BlockNumber, Capacity, EpochExt, EpochNumberWithFraction, HeaderBuilder, HeaderView},
+    packed::Byte32,
+    utilities::{compact_to_difficulty, compact_to_target, difficulty_to_compact, target_to_compact},
+};
+use numext_fixed_uint::U1024;
+use std::panic::{AssertUnwindSafe, catch_unwind};
 
-pub fn run(_opts: &Opts) {
-    eprintln!("C07: harness not implemented in this crate");
-    std::process::exit(2);
+const MAINNET_INITIAL: u64 = 1_917_808_21917808;
+const MAINNET_SECONDARY: u64 = 613_698_63013698;
+
+fn hx(u: &U256) -> String {
+    format!("{:#x}", u)
+}
+
+fn u256_from_hex(s: &str) -> U256 {
+    let s = s.strip_prefix("0x").unwrap_or_else(|| panic!("hex expected: {s}"));
+    U256::from_hex_str(s).unwrap_or_else(|_| panic!("bad hex {s}"))
+}
+
+fn parse_u256(s: &str) -> U256 {
+    if s.starts_with("0x") { u256_from_hex(s) } else { U256::from(s.parse::<u64>().expect("u64")) }
+}
+
+fn parse_u64(s: &str) -> u64 {
+    if let Some(h) = s.strip_prefix("0x") { u64::from_str_radix(h, 16).expect("hex u64") } else { s.parse().expect("u64") }
+}
+
+fn big(u: &U256) -> U1024 {
+    let mut b = [0u8; 32];
+    u.into_big_endian(&mut b).unwrap();
+    let mut w = [0u8; 128];
+    w[96..].copy_from_slice(&b);
+    U1024::from_big_endian(&w).unwrap()
+}
+
+fn big64(x: u64) -> U1024 {
+    U1024::from(x)
+}
+
+/// random U256 with a uniformly chosen bit length (so every magnitude is exercised)
+fn rand_u256(rng: &mut Rng) -> U256 {
+    let bits = rng.range(0, 256);
+    if bits == 0 {
+        return U256::zero();
+    }
+    let mut b = [0u8; 32];
+    for x in b.iter_mut() {
+        *x = rng.next() as u8;
+    }
+    let mut v = U256::from_big_endian(&b).unwrap();
+    v = v >> (256 - bits as u32);
+    // force the top bit so the length is exact
+    v | (U256::one() << (bits as u32 - 1))
+}
+
+fn rand_u64_biased(rng: &mut Rng) -> u64 {
+    match rng.below(8) {
+        0 => 0,
+        1 => 1,
+        2 => u64::MAX,
+        3 => u64::MAX - rng.below(3),
+        4 => 1u64 << rng.below(64),
+        5 => (1u64 << rng.range(1, 63)) - 1,
+        _ => {
+            let bits = rng.range(1, 64);
+            rng.next() >> (64 - bits)
+        }
+    }
+}
+
+thread_local! { static QUIET: std::cell::Cell<bool> = const { std::cell::Cell::new(false) }; }
+
+/// run code under test; a panic is an answer (`None`), not noise
+fn quiet<T>(f: impl FnOnce() -> T) -> Option<T> {
+    QUIET.with(|q| q.set(true));
+    let r = catch_unwind(AssertUnwindSafe(f)).ok();
+    QUIET.with(|q| q.set(false));
+    r
+}
+
+struct Mock {
+    epoch: EpochExt,
+    uncles: u64,
+    dur: u64,
+}
+
+impl EpochProvider for Mock {
+    fn get_epoch_ext(&self, _h: &HeaderView) -> Option<EpochExt> {
+        Some(self.epoch.clone())
+    }
+    fn get_block_hash(&self, _n: BlockNumber) -> Option<Byte32> {
+        None
+    }
+    fn get_block_ext(&self, _h: &Byte32) -> Option<BlockExt> {
+        None
+    }
+    fn get_block_header(&self, _h: &Byte32) -> Option<HeaderView> {
+        None
+    }
+    fn get_block_epoch(&self, _h: &HeaderView) -> Option<BlockEpoch> {
+        Some(BlockEpoch::TailBlock {
+            epoch: self.epoch.clone(),
+            epoch_uncles_count: self.uncles,
+            epoch_duration_in_milliseconds: self.dur,
+        })
+    }
+}
+
+fn mk_epoch(start: u64, len: u64, base: u64, rem: u64) -> EpochExt {
+    EpochExt::new_builder()
+        .number(0)
+        .base_block_reward(Capacity::shannons(base))
+        .remainder_reward(Capacity::shannons(rem))
+        .start_number(start)
+        .length(len)
+        .build()
+}
+
+struct Ctx {
+    consensus: Consensus,
+    min_len: u64,
+    max_len: u64,
+}
+
+#[derive(Clone, Debug)]
+struct NextIn {
+    t: u64,
+    initial: u64,
+    halving: u64,
+    ort: (u32, u32),
+    number: u64,
+    base: u64,
+    rem: u64,
+    prev_hr: U256,
+    start: u64,
+    len: u64,
+    hdr_number: u64,
+    hdr_compact: u32,
+    uncles: u64,
+    dur: u64,
+}
+
+impl NextIn {
+    fn line(&self) -> String {
+        format!(
+            "next {} {} {} {} {} {} {} {} {} {} {} {} {:#x} {} {}",
+            self.t, self.initial, self.halving, self.ort.0, self.ort.1, self.number, self.base, self.rem, hx(&self.prev_hr), self.start, self.len,
+            self.hdr_number, self.hdr_compact, self.uncles, self.dur
+        )
+    }
+    fn parse(t: &[&str]) -> NextIn {
+        NextIn {
+            t: parse_u64(t[1]),
+            initial: parse_u64(t[2]),
+            halving: parse_u64(t[3]),
+            ort: (parse_u64(t[4]) as u32, parse_u64(t[5]) as u32),
+            number: parse_u64(t[6]),
+            base: parse_u64(t[7]),
+            rem: parse_u64(t[8]),
+            prev_hr: parse_u256(t[9]),
+            start: parse_u64(t[10]),
+            len: parse_u64(t[11]),
+            hdr_number: parse_u64(t[12]),
+            hdr_compact: parse_u64(t[13]) as u32,
+            uncles: parse_u64(t[14]),
+            dur: parse_u64(t[15]),
+        }
+    }
+}
+
+/// floor(a / b) on U1024, None on b == 0 or overflow upstream
+fn bdiv(a: &U1024, b: &U1024) -> Option<U1024> {
+    if b.is_zero() { None } else { Some(a / b) }
+}
+
+fn bmul(xs: &[U1024]) -> Option<U1024> {
+    let mut acc = U1024::one();
+    for x in xs {
+        acc = acc.checked_mul(x)?;
+    }
+    Some(acc)
+}
+
+/// The property's side of `next`, on the implementation's output, with exact wide arithmetic that
+/// shares nothing with RationalU256 or the model.
+fn next_oracle(out: &mut Out, ctx: &Ctx, i: &NextIn, e: &EpochExt) {
+    let l2 = e.length();
+    // (a) length bounds
+    if i.len >= ctx.min_len && i.len <= ctx.max_len {
+        if !(l2 >= ctx.min_len && l2 <= ctx.max_len) {
+            out.oracle_fail("next-length-out-of-consensus-bounds", &format!("{} -> L'={}", i.line(), l2));
+        }
+        if !(l2 >= i.len / 2 && l2 <= i.len * 2) {
+            out.oracle_fail("next-length-more-than-factor-two", &format!("{} -> L'={}", i.line(), l2));
+        }
+    }
+    // (b) difficulty never zero
+    let diff2 = compact_to_difficulty(e.compact_target());
+    if diff2.is_zero() {
+        out.oracle_fail("next-difficulty-zero", &format!("{} -> compact={:#x}", i.line(), e.compact_target()));
+    }
+    // (c) hash-rate estimate clamped to a factor two of the previous estimate, and >= 1
+    let adj = e.previous_epoch_hash_rate().clone();
+    if adj.is_zero() {
+        out.oracle_fail("next-hash-rate-zero", &i.line());
+    }
+    if !i.prev_hr.is_zero() {
+        let lo = big(&i.prev_hr) / big64(2);
+        let hi = big(&i.prev_hr) * big64(2);
+        let a = big(&adj);
+        if a < lo || a > hi {
+            out.oracle_fail("next-hash-rate-not-clamped", &format!("{} -> {}", i.line(), hx(&adj)));
+        }
+    }
+    // the estimate itself: clamp(diff * (L + u) / max(ms/1000,1))
+    let diff = compact_to_difficulty(i.hdr_compact);
+    let d_secs = std::cmp::max(i.dur / 1000, 1);
+    let raw_hr = big(&diff) * (big64(i.len) + big64(i.uncles)) / big64(d_secs);
+    let expect_adj = {
+        let mut v = raw_hr.clone();
+        if !i.prev_hr.is_zero() {
+            let lo = big(&i.prev_hr) / big64(2);
+            let hi = big(&i.prev_hr) * big64(2);
+            if v < lo {
+                v = lo
+            } else if v > hi {
+                v = hi
+            }
+        }
+        if v.is_zero() { U1024::one() } else { v }
+    };
+    if big(&adj) != expect_adj {
+        out.oracle_fail("next-hash-rate-estimate", &format!("{} -> {} expected {:#x}", i.line(), hx(&adj), expect_adj));
+    }
+    // (d) epoch reward: base' * L' + rem' = scheduled primary issuance, rem' < L'
+    if i.halving > 0 {
+        let n1 = i.number as u128 + 1;
+        let expect_r: Option<u128> = if n1 % i.halving as u128 == 0 {
+            let h = n1 / i.halving as u128;
+            if h < 64 { Some((i.initial >> h) as u128) } else { None }
+        } else {
+            Some(i.base as u128 * i.len as u128 + i.rem as u128)
+        };
+        let got = e.base_block_reward().as_u64() as u128 * l2 as u128 + e.remainder_reward().as_u64() as u128;
+        if expect_r != Some(got) || e.remainder_reward().as_u64() >= l2 {
+            out.oracle_fail("next-epoch-reward", &format!("{} -> base={} rem={} L'={} expected total {:?}", i.line(), e.base_block_reward(), e.remainder_reward(), l2, expect_r));
+        }
+    }
+    if e.number() as u128 != i.number as u128 + 1 || e.start_number() as u128 != i.hdr_number as u128 + 1 {
+        out.oracle_fail("next-epoch-number-or-start", &i.line());
+    }
+    // (e) difficulty = max(1, floor(HR_adj * T / ((1 + o) * L'))) with o per RFC branch
+    let (u, l, t, d, lp) = (big64(i.uncles), big64(i.len), big64(i.t), big64(d_secs), big64(l2));
+    let (on, od) = (big64(i.ort.0 as u64), big64(i.ort.1 as u64));
+    let formula: Option<(U1024, U1024, &str)> = (|| {
+        if i.uncles == 0 {
+            return Some((U1024::zero(), U1024::one(), "o=0"));
+        }
+        // was the length bounded?  raw = floor(o_ideal (1+o_i) T L / (o_i (1+o_ideal) D)), low 64 bits
+        let raw_n = bmul(&[on.clone(), &u + &l, t.clone(), l.clone()])?;
+        let raw_d = bmul(&[u.clone(), &on + &od, d.clone()])?;
+        let raw = bdiv(&raw_n, &raw_d)?;
+        let raw64 = raw % (U1024::one() << 64u32);
+        let max_l = std::cmp::min(ctx.max_len as u128, i.len as u128 * 2);
+        let min_l = std::cmp::max(ctx.min_len, i.len / 2);
+        let bound = raw64 > U1024::from(max_l) || raw64 < big64(min_l);
+        if !bound {
+            return Some((on.clone(), od.clone(), "o=ideal"));
+        }
+        // o_{i+1} = 1 / ( (1+o_i) T L / (o_i D L') - 1 ), or o_ideal when that reciprocal is <= 0
+        let a = bmul(&[&u + &l, t.clone(), l.clone()])?;
+        let b = bmul(&[u.clone(), d.clone(), lp.clone()])?;
+        if a <= b { Some((on.clone(), od.clone(), "o=ideal-fallback")) } else { Some((b.clone(), &a - &b, "o=estimated")) }
+    })();
+    if let Some((p, q, tag)) = formula {
+        out.count(&format!("next-branch-{tag}"));
+        if !(&p + &q).is_zero() && l2 != 0 {
+            let num = bmul(&[big(&adj), t.clone(), q.clone()]);
+            let den = bmul(&[&p + &q, lp.clone()]);
+            if let (Some(num), Some(den)) = (num, den) {
+                let mut want = &num / &den;
+                if want.is_zero() {
+                    want = U1024::one();
+                }
+                if want < (U1024::one() << 256u32) {
+                    let mut w = [0u8; 128];
+                    want.into_big_endian(&mut w).unwrap();
+                    let want256 = U256::from_big_endian(&w[96..]).unwrap();
+                    let want_compact = difficulty_to_compact(want256.clone());
+                    if want_compact != e.compact_target() {
+                        out.oracle_fail(
+                            "next-difficulty-formula",
+                            &format!("{} -> compact={:#x} expected {:#x} (diff {}) branch {}", i.line(), e.compact_target(), want_compact, hx(&want256), tag),
+                        );
+                    }
+                }
+            }
+        }
+    }
+}
+
+fn do_next(out: &mut Out, ctx: &mut Ctx, i: &NextIn) {
+    ctx.consensus.epoch_duration_target = i.t;
+    ctx.consensus.initial_primary_epoch_reward = Capacity::shannons(i.initial);
+    ctx.consensus.primary_epoch_reward_halving_interval = i.halving;
+    ctx.consensus.orphan_rate_target = RationalU256::new_raw(U256::from(i.ort.0), U256::from(i.ort.1));
+    let epoch = EpochExt::new_builder()
+        .number(i.number)
+        .base_block_reward(Capacity::shannons(i.base))
+        .remainder_reward(Capacity::shannons(i.rem))
+        .previous_epoch_hash_rate(i.prev_hr.clone())
+        .start_number(i.start)
+        .length(i.len)
+        .compact_target(i.hdr_compact)
+        .build();
+    let header = HeaderBuilder::default().number(i.hdr_number).epoch(EpochNumberWithFraction::new(1, 0, 1000)).compact_target(i.hdr_compact).build();
+    let mock = Mock { epoch, uncles: i.uncles, dur: i.dur };
+    let consensus = &ctx.consensus;
+    let res = quiet(|| consensus.next_epoch_ext(&header, &mock).map(|n| n.epoch()));
+    let ans = match &res {
+        Some(Some(e)) => {
+            if e.last_block_hash_in_previous_epoch() != header.hash() {
+                out.oracle_fail("next-last-block-hash", &i.line());
+            }
+            format!(
+                "{} {} {} {} {} {} {}",
+                e.number(),
+                e.base_block_reward().as_u64(),
+                e.remainder_reward().as_u64(),
+                hx(e.previous_epoch_hash_rate()),
+                e.start_number(),
+                e.length(),
+                e.compact_target()
+            )
+        }
+        _ => "fail".to_string(),
+    };
+    out.op(&i.line(), &ans);
+    out.count(if ans == "fail" { "next-fail" } else { "next-ok" });
+    if let Some(Some(e)) = &res {
+        next_oracle(out, ctx, i, e);
+        if i.len >= ctx.min_len && i.len <= ctx.max_len {
+            out.nontrivial(format!("{} {} {} {} {}", i.len, i.uncles, i.dur, e.length(), e.compact_target()));
+        }
+    }
+}
+
+fn gen_compact(rng: &mut Rng) -> u32 {
+    match rng.below(10) {
+        0 => 0x1a08a8b1,
+        1 => 0x2080_0000,
+        2 => 0x2001_0000,
+        3 => 0x1d00_ffff,
+        4 => (rng.range(0, 40) as u32) << 24,                                   // zero mantissa
+        5 => ((rng.range(33, 255) as u32) << 24) | (rng.next() as u32 & 0xff_ffff), // overflow range
+        6 => ((rng.range(0, 4) as u32) << 24) | (rng.next() as u32 & 0xff_ffff),   // tiny exponents
+        7 => rng.next() as u32,
+        _ => ((rng.range(1, 33) as u32) << 24) | (rng.next() as u32 & 0xff_ffff),
+    }
+}
+
+fn gen_next(rng: &mut Rng, ctx: &Ctx) -> NextIn {
+    let t = match rng.below(12) {
+        0 => 1,
+        1 => 8,
+        2 => rng.range(1, 100_000),
+        3 => rand_u64_biased(rng),
+        _ => 14_400,
+    };
+    let initial = match rng.below(8) {
+        0 => rand_u64_biased(rng),
+        1 => rng.range(0, 5000),
+        _ => MAINNET_INITIAL,
+    };
+    let halving = match rng.below(8) {
+        0 => rng.range(1, 4),
+        1 => rng.range(1, 100),
+        2 => rand_u64_biased(rng).max(1),
+        _ => 8760,
+    };
+    let ort = match rng.below(10) {
+        0 => (rng.range(0, 5) as u32, rng.range(1, 50) as u32),
+        1 => (rng.next() as u32, (rng.next() as u32).max(1)),
+        _ => (1, 40),
+    };
+    let number = match rng.below(10) {
+        0 => halving.saturating_mul(rng.range(1, 70)).saturating_sub(1),
+        1 => halving.saturating_mul(rng.range(1, 70)).saturating_sub(2),
+        2 => halving.saturating_mul(rng.range(1, 70)),
+        3 => rand_u64_biased(rng),
+        _ => rng.range(0, 20_000),
+    };
+    let len = match rng.below(16) {
+        0 => ctx.min_len,
+        1 => ctx.max_len,
+        2 => ctx.max_len / 2 + rng.range(0, 2) - 1,
+        3 => ctx.min_len * 2 + rng.range(0, 2) - 1,
+        4 => rng.range(1, ctx.min_len),
+        5 => rng.range(ctx.max_len, ctx.max_len * 3),
+        6 => rand_u64_biased(rng),
+        _ => rng.range(ctx.min_len, ctx.max_len),
+    };
+    let (base, rem) = match rng.below(8) {
+        0 => (rand_u64_biased(rng), rand_u64_biased(rng)),
+        _ => {
+            let r = initial >> (rng.below(4));
+            if len == 0 { (r, 0) } else { (r / len, r % len) }
+        }
+    };
+    let hdr_compact = match rng.below(6) {
+        0 => gen_compact(rng),
+        1 => ((rng.range(4, 32) as u32) << 24) | (rng.next() as u32 & 0xff_ffff),
+        2 => 0x2080_0000,
+        3 => 0x2100_0001 - rng.range(0, 2) as u32 * 0x0100_0000,
+        _ => 0x1a08a8b1u32.wrapping_add(rng.below(0x100000) as u32),
+    }
+    .max(1); // HeaderBuilder debug-asserts a non-zero compact target
+    let uncles = match rng.below(12) {
+        0 | 1 => 0,
+        2 => 1,
+        3 => len / 40,
+        4 => (len / 40).saturating_add(rng.range(0, 2)).saturating_sub(1),
+        5 => len.saturating_mul(2),
+        6 => rand_u64_biased(rng),
+        7 => rng.range(0, len.saturating_mul(2).min(1 << 40)),
+        _ => rng.range(0, (len / 10).max(1)),
+    };
+    let ideal_ms = t.saturating_mul(1000);
+    let dur = match rng.below(14) {
+        0 => 0,
+        1 => 1,
+        2 => 999,
+        3 => 1000,
+        4 => 1999,
+        5 => ideal_ms / 4,
+        6 => ideal_ms / 2,
+        7 => ideal_ms.saturating_mul(2),
+        8 => ideal_ms.saturating_mul(4),
+        9 => rand_u64_biased(rng),
+        10 => rng.range(0, ideal_ms.saturating_mul(8).clamp(1, u64::MAX - 1)),
+        _ => ideal_ms.saturating_add(rng.range(0, 2_000_000)).saturating_sub(1_000_000),
+    };
+    // previous hash rate: around the clamp boundaries of the estimate that this epoch will produce
+    let diff = compact_to_difficulty(hdr_compact);
+    let d_secs = std::cmp::max(dur / 1000, 1);
+    let hr = quiet(|| &diff * (len.wrapping_add(uncles)) / U256::from(d_secs)).unwrap_or_else(U256::zero);
+    let two = U256::from(2u64);
+    let prev_hr = match rng.below(14) {
+        0 => U256::zero(),
+        1 => U256::one(),
+        2 => hr.clone(),
+        3 => hr.checked_mul(&two).unwrap_or_else(U256::max_value),
+        4 => hr.checked_mul(&two).and_then(|x| x.checked_add(&U256::one())).unwrap_or_else(U256::max_value),
+        5 => hr.checked_mul(&two).and_then(|x| x.checked_add(&two)).unwrap_or_else(U256::max_value),
+        6 => hr.checked_mul(&two).and_then(|x| x.checked_sub(&U256::one())).unwrap_or_else(U256::zero),
+        7 => &hr / &two,
+        8 => (&hr / &two).checked_add(&U256::one()).unwrap(),
+        9 => (&hr / &two).checked_sub(&U256::one()).unwrap_or_else(U256::zero),
+        10 => rand_u256(rng),
+        11 => U256::max_value() >> (rng.below(3) as u32),
+        _ => {
+            // within a factor of four either way
+            let k = rng.range(1, 16);
+            (&hr / U256::from(4u64)).checked_mul(&U256::from(k)).unwrap_or_else(U256::max_value)
+        }
+    };
+    let start = match rng.below(10) {
+        0 => rand_u64_biased(rng),
+        _ => rng.range(0, 10_000_000),
+    };
+    let hdr_number = match rng.below(12) {
+        0 => u64::MAX,
+        1 => rand_u64_biased(rng),
+        _ => start.wrapping_add(len).wrapping_sub(1),
+    };
+    NextIn { t, initial, halving, ort, number, base, rem, prev_hr, start, len, hdr_number, hdr_compact, uncles, dur }
+}
+
+// ------------------------------------------------------------------------------------------------
+// simple ops: each executes one op line on the real code and returns the canonical answer
+
+fn op_c2t(out: &mut Out, c: u32) {
+    let (t, o) = compact_to_target(c);
+    out.op(&format!("c2t {:#x}", c), &format!("{} {}", hx(&t), o as u8));
+    out.count("c2t");
+    // property: a non-overflowing compact's target re-encodes to a compact decoding to the same target;
+    // the canonical re-encoding is a fixed point
+    if !o && !t.is_zero() {
+        let c2 = target_to_compact(t.clone());
+        let (t2, o2) = compact_to_target(c2);
+        if o2 || t2 != t {
+            out.oracle_fail("compact-roundtrip", &format!("compact {:#x} target {} recompact {:#x} -> {}", c, hx(&t), c2, hx(&t2)));
+        }
+        if target_to_compact(t2) != c2 {
+            out.oracle_fail("compact-canonical-fixpoint", &format!("compact {:#x}", c));
+        }
+    }
+}
+
+fn op_t2c(out: &mut Out, t: &U256) {
+    let c = target_to_compact(t.clone());
+    out.op(&format!("t2c {}", hx(t)), &format!("{}", c));
+    out.count("t2c");
+    // property: decoding never exceeds the target, loses less than 2^-15 of it, and never overflows
+    let (t2, o) = compact_to_target(c);
+    if o || t2 > *t {
+        out.oracle_fail("target-compact-exceeds", &format!("target {} -> {:#x} -> {}", hx(t), c, hx(&t2)));
+    }
+    if !t.is_zero() && t2.is_zero() {
+        out.oracle_fail("target-compact-zero", &format!("target {}", hx(t)));
+    }
+    if big(&(t - &t2)) * big64(1 << 15) > big(t) {
+        out.oracle_fail("target-compact-precision", &format!("target {} -> {}", hx(t), hx(&t2)));
+    }
+}
+
+fn op_c2d(out: &mut Out, c: u32) {
+    let d = compact_to_difficulty(c);
+    out.op(&format!("c2d {:#x}", c), &hx(&d));
+    out.count("c2d");
+    let (t, o) = compact_to_target(c);
+    if (t.is_zero() || o) != d.is_zero() {
+        out.oracle_fail("difficulty-zero-iff-invalid-target", &format!("compact {:#x}", c));
+    }
+}
+
+fn op_d2c(out: &mut Out, d: &U256) {
+    let r = quiet(|| difficulty_to_compact(d.clone()));
+    out.op(&format!("d2c {}", hx(d)), &r.map(|c| c.to_string()).unwrap_or("fail".into()));
+    out.count("d2c");
+    if let Some(c) = r {
+        // property: a difficulty >= 1 never round-trips to zero, and the decoded difficulty is >= the
+        // requested one (target rounding is downwards, so difficulty rounds upwards) within 2^-14
+        let d2 = compact_to_difficulty(c);
+        if d2.is_zero() {
+            out.oracle_fail("difficulty-roundtrip-zero", &format!("difficulty {}", hx(d)));
+        }
+        if d2 < *d {
+            out.oracle_fail("difficulty-roundtrip-decreased", &format!("difficulty {} -> {:#x} -> {}", hx(d), c, hx(&d2)));
+        }
+    } else if !d.is_zero() {
+        out.oracle_fail("difficulty-to-compact-panics", &format!("difficulty {}", hx(d)));
+    }
+}
+
+fn digest_of(header: &ckb_types::packed::Header) -> U256 {
+    let input = ckb_pow::pow_message(&header.as_reader().calc_pow_hash(), header.nonce().into());
+    let mut output = [0u8; 32];
+    eaglesong::eaglesong(&input, &mut output);
+    U256::from_big_endian(&output).unwrap()
+}
+
+fn op_pow(out: &mut Out, compact: u32, nonce: u128, number: u64) {
+    let header = HeaderBuilder::default().number(number).epoch(EpochNumberWithFraction::new(1, 0, 1000)).compact_target(compact).nonce(nonce).build().data();
+    let digest = digest_of(&header);
+    let ok = EaglesongPowEngine.verify(&header);
+    out.op(&format!("pow {:#x} {}", compact, hx(&digest)), if ok { "1" } else { "0" });
+    out.count(if ok { "pow-accept" } else { "pow-reject" });
+    let (t, o) = compact_to_target(compact);
+    let want = !t.is_zero() && !o && digest <= t;
+    if ok != want {
+        out.oracle_fail("pow-accept-iff-digest-le-target", &format!("compact {:#x} digest {} target {}", compact, hx(&digest), hx(&t)));
+    }
+    if ok {
+        out.nontrivial(format!("pow {:#x} {}", compact, nonce));
+    }
+}
+
+fn enf_line(v: u64) -> String {
+    let e = EpochNumberWithFraction::from_full_value_unchecked(v);
+    format!("{} {} {} wf={} gen={}", e.number(), e.index(), e.length(), e.is_well_formed() as u8, e.is_genesis() as u8)
+}
+
+fn op_enf(out: &mut Out, v: u64) {
+    out.op(&format!("enf {:#x}", v), &enf_line(v));
+    out.count("enf");
+}
+
+fn op_enfnew(out: &mut Out, n: u64, i: u64, l: u64) {
+    let v = EpochNumberWithFraction::new_unchecked(n, i, l).full_value();
+    out.op(&format!("enfnew {n} {i} {l}"), &v.to_string());
+    out.count("enfnew");
+    if n < (1 << 24) && i < (1 << 16) && l < (1 << 16) {
+        let e = EpochNumberWithFraction::from_full_value_unchecked(v);
+        if (e.number(), e.index(), e.length()) != (n, i, l) {
+            out.oracle_fail("epoch-fraction-roundtrip", &format!("{n} {i} {l}"));
+        }
+    }
+}
+
+fn op_succ(out: &mut Out, s: u64, p: u64) {
+    let (es, ep) = (EpochNumberWithFraction::from_full_value_unchecked(s), EpochNumberWithFraction::from_full_value_unchecked(p));
+    let r = quiet(|| es.is_successor_of(ep)).unwrap_or(false);
+    out.op(&format!("succ {:#x} {:#x}", s, p), if r { "1" } else { "0" });
+    out.count(if r { "succ-yes" } else { "succ-no" });
+    // gap-free: for a well-formed predecessor a well-formed successor is exactly the next position
+    if ep.is_well_formed() && es.is_well_formed() {
+        let want = if ep.index() + 1 == ep.length() {
+            es.number() == ep.number() + 1 && es.index() == 0
+        } else {
+            es.number() == ep.number() && es.index() == ep.index() + 1 && es.length() == ep.length()
+        };
+        if r != want {
+            out.oracle_fail("epoch-successor", &format!("{:#x} after {:#x}", s, p));
+        }
+    }
+}
+
+fn op_reward(out: &mut Out, start: u64, len: u64, base: u64, rem: u64, n: u64) -> Option<u64> {
+    let e = mk_epoch(start, len, base, rem);
+    let r = quiet(|| e.block_reward(n).ok().map(|c| c.as_u64())).flatten();
+    out.op(&format!("reward {start} {len} {base} {rem} {n}"), &r.map(|v| v.to_string()).unwrap_or("fail".into()));
+    out.count("reward");
+    r
+}
+
+fn op_sec(out: &mut Out, start: u64, len: u64, sec: u64, n: u64) -> Option<u64> {
+    let e = mk_epoch(start, len, 0, 0);
+    let r = quiet(|| e.secondary_block_issuance(n, Capacity::shannons(sec)).ok().map(|c| c.as_u64())).flatten();
+    out.op(&format!("sec {start} {len} {sec} {n}"), &r.map(|v| v.to_string()).unwrap_or("fail".into()));
+    out.count("sec");
+    r
+}
+
+fn op_prim(out: &mut Out, ctx: &mut Ctx, initial: u64, halving: u64, n: u64) -> Option<u64> {
+    ctx.consensus.initial_primary_epoch_reward = Capacity::shannons(initial);
+    ctx.consensus.primary_epoch_reward_halving_interval = halving;
+    let c = &ctx.consensus;
+    let r = quiet(|| c.primary_epoch_reward(n).as_u64());
+    out.op(&format!("prim {initial} {halving} {n}"), &r.map(|v| v.to_string()).unwrap_or("fail".into()));
+    out.count("prim");
+    r
+}
+
+/// whole-epoch sums: every block of an epoch, primary and secondary, must add up to the epoch amount
+fn epoch_sums(out: &mut Out, start: u64, len: u64, primary: u64, sec: u64) {
+    let (base, rem) = (primary / len, primary % len);
+    let mut sum_p: u128 = 0;
+    let mut sum_s: u128 = 0;
+    let mut ok = true;
+    // also the two blocks just outside the epoch get the base amount (no extra shannon)
+    for n in start..start + len {
+        match (op_reward(out, start, len, base, rem, n), op_sec(out, start, len, sec, n)) {
+            (Some(p), Some(s)) => {
+                sum_p += p as u128;
+                sum_s += s as u128;
+            }
+            _ => ok = false,
+        }
+    }
+    if ok {
+        if sum_p != primary as u128 {
+            out.oracle_fail("primary-rewards-do-not-sum-to-epoch-reward", &format!("start={start} len={len} reward={primary} sum={sum_p}"));
+        }
+        if sum_s != sec as u128 {
+            out.oracle_fail("secondary-issuance-does-not-sum-to-epoch-issuance", &format!("start={start} len={len} issuance={sec} sum={sum_s}"));
+        }
+        out.nontrivial(format!("sum {len} {} {}", primary % len, sec % len));
+    }
+}
+
+fn exec_line(out: &mut Out, ctx: &mut Ctx, line: &str) {
+    let t: Vec<&str> = line.split_whitespace().collect();
+    match t[0] {
+        "case" => {
+            out.begin_case(&t[2..].join(" "));
+        }
+        "consts" => op_consts(out, ctx),
+        "c2t" => op_c2t(out, parse_u64(t[1]) as u32),
+        "t2c" => op_t2c(out, &parse_u256(t[1])),
+        "c2d" => op_c2d(out, parse_u64(t[1]) as u32),
+        "d2c" => op_d2c(out, &parse_u256(t[1])),
+        "pow" => panic!("pow lines cannot be replayed literally (the digest is derived from a header); use seeds"),
+        "enf" => op_enf(out, parse_u64(t[1])),
+        "enfnew" => op_enfnew(out, parse_u64(t[1]), parse_u64(t[2]), parse_u64(t[3])),
+        "succ" => op_succ(out, parse_u64(t[1]), parse_u64(t[2])),
+        "reward" => {
+            op_reward(out, parse_u64(t[1]), parse_u64(t[2]), parse_u64(t[3]), parse_u64(t[4]), parse_u64(t[5]));
+        }
+        "sec" => {
+            op_sec(out, parse_u64(t[1]), parse_u64(t[2]), parse_u64(t[3]), parse_u64(t[4]));
+        }
+        "prim" => {
+            op_prim(out, ctx, parse_u64(t[1]), parse_u64(t[2]), parse_u64(t[3]));
+        }
+        "sums" => epoch_sums(out, parse_u64(t[1]), parse_u64(t[2]), parse_u64(t[3]), parse_u64(t[4])),
+        "next" => do_next(out, ctx, &NextIn::parse(&t)),
+        other => panic!("unknown op {other}"),
+    }
+}
+
+fn op_consts(out: &mut Out, ctx: &Ctx) {
+    let c = ConsensusBuilder::default().build();
+    let ort = format!("{}", c.orphan_rate_target());
+    out.op(
+        "consts",
+        &format!(
+            "tau={} min={} max={} ort={} bits={},{},{} target={}",
+            ckb_constant::consensus::TAU,
+            ctx.min_len,
+            ctx.max_len,
+            ort,
+            EpochNumberWithFraction::NUMBER_BITS,
+            EpochNumberWithFraction::INDEX_BITS,
+            EpochNumberWithFraction::LENGTH_BITS,
+            c.epoch_duration_target()
+        ),
+    );
+}
+
+pub fn run(opts: &Opts) {
+    // panics of the code under test are answers ("fail"), not noise
+    let default_hook = std::panic::take_hook();
+    std::panic::set_hook(Box::new(move |info| {
+        if !QUIET.with(|q| q.get()) {
+            default_hook(info);
+        }
+    }));
+    let consensus = ConsensusBuilder::default().build();
+    let mut ctx = Ctx { min_len: consensus.min_epoch_length(), max_len: consensus.max_epoch_length(), consensus };
+    let mut out = Out::new(&opts.out);
+    let rule = "next: accepted epoch transition from a previous length within the consensus bounds (fingerprint L,uncles,duration,L',compact'); sums: a whole epoch's block rewards added up; pow: an accepted header";
+
+    if let Some(rp) = &opts.replay {
+        for line in read_replay_ops(rp) {
+            if line.starts_with("sums ") {
+                // `sums` expands into reward/sec lines in ops.txt
+            }
+            exec_line(&mut out, &mut ctx, &line);
+        }
+        out.finish(rule);
+        return;
+    }
+
+    let mut rng = Rng::new(opts.seed);
+    let k = opts.scale * if opts.thorough() { 20 } else { 1 };
+
+    out.begin_case("consts");
+    op_consts(&mut out, &ctx);
+
+    // --- compact / target / difficulty -----------------------------------------------------
+    out.begin_case("compact-structured");
+    for e in 0..=40u32 {
+        for m in [0u32, 1, 2, 0x7f, 0x80, 0xff, 0x100, 0x7fff, 0x8000, 0xffff, 0x10000, 0x7fffff, 0x800000, 0xffffff] {
+            let c = (e << 24) | m;
+            op_c2t(&mut out, c);
+            op_c2d(&mut out, c);
+        }
+    }
+    for e in [41u32, 64, 127, 128, 200, 254, 255] {
+        for m in [0u32, 1, 0x800000, 0xffffff] {
+            op_c2t(&mut out, (e << 24) | m);
+            op_c2d(&mut out, (e << 24) | m);
+        }
+    }
+    out.begin_case("compact-random");
+    for _ in 0..3000 * k {
+        let c = gen_compact(&mut rng);
+        op_c2t(&mut out, c);
+        op_c2d(&mut out, c);
+    }
+    out.begin_case("target-difficulty");
+    for bits in 0..=256u32 {
+        // 2^bits - 1, 2^(bits-1), 2^(bits-1)+1
+        let hi = if bits == 256 { U256::max_value() } else { (U256::one() << bits) - U256::one() };
+        for v in [hi.clone(), &hi >> 1u32, (&hi >> 1u32).checked_add(&U256::one()).unwrap_or_else(U256::max_value), (&hi >> 1u32).checked_add(&U256::from(2u64)).unwrap_or_else(U256::max_value)] {
+            op_t2c(&mut out, &v);
+            op_d2c(&mut out, &v);
+        }
+    }
+    for _ in 0..2000 * k {
+        let v = rand_u256(&mut rng);
+        op_t2c(&mut out, &v);
+        op_d2c(&mut out, &v);
+    }
+    // monotonicity of the conversions on neighbouring / ordered pairs (oracle only; the lines are ordinary)
+    for _ in 0..1500 * k {
+        let a = rand_u256(&mut rng);
+        let b = match rng.below(3) {
+            0 => a.checked_add(&U256::one()).unwrap_or_else(U256::max_value),
+            1 => rand_u256(&mut rng),
+            _ => a.checked_add(&(&a >> (rng.range(1, 30) as u32))).unwrap_or_else(U256::max_value),
+        };
+        let (lo, hi) = if a <= b { (a, b) } else { (b, a) };
+        op_t2c(&mut out, &lo);
+        op_t2c(&mut out, &hi);
+        let (tl, _) = compact_to_target(target_to_compact(lo.clone()));
+        let (th, _) = compact_to_target(target_to_compact(hi.clone()));
+        if tl > th {
+            out.oracle_fail("target-compact-not-monotone", &format!("{} <= {} but {} > {}", hx(&lo), hx(&hi), hx(&tl), hx(&th)));
+        }
+        if !lo.is_zero() {
+            let dl = quiet(|| compact_to_difficulty(difficulty_to_compact(lo.clone())));
+            let dh = quiet(|| compact_to_difficulty(difficulty_to_compact(hi.clone())));
+            if let (Some(dl), Some(dh)) = (dl, dh) {
+                if dl > dh {
+                    out.oracle_fail("difficulty-compact-not-monotone", &format!("{} <= {}", hx(&lo), hx(&hi)));
+                }
+            }
+        }
+        // target/difficulty are antitone: a larger target is a smaller (or equal) difficulty
+        let cl = target_to_compact(lo.clone());
+        let ch = target_to_compact(hi.clone());
+        let (dl, dh) = (compact_to_difficulty(cl), compact_to_difficulty(ch));
+        if !lo.is_zero() && dl < dh {
+            out.oracle_fail("target-difficulty-not-antitone", &format!("{} <= {}", hx(&lo), hx(&hi)));
+        }
+    }
+
+    // --- proof of work ---------------------------------------------------------------------
+    out.begin_case("pow");
+    for j in 0..600 * k {
+        let compact = match rng.below(8) {
+            0 => 0x2100_0000 | (rng.next() as u32 & 0xffff),         // exponent 33: flagged overflow
+            1 => 0x2000_0000 | (rng.next() as u32 & 0xff_ffff),      // huge targets: about half accepted
+            2 => 0x2080_0000,
+            3 => 0x20ff_ffff,
+            4 => 0x1f00_0000 | (rng.next() as u32 & 0xff_ffff),
+            5 => gen_compact(&mut rng),
+            6 => 0x2000_0000 | (1 << rng.below(24)),
+            _ => 0x2000_0000 | (rng.next() as u32 & 0xff_ffff),
+        }
+        .max(1);
+        op_pow(&mut out, compact, ((rng.next() as u128) << 64) | rng.next() as u128, j);
+    }
+
+    // --- epoch number with fraction ----------------------------------------------------------
+    out.begin_case("epoch-fraction");
+    for _ in 0..2000 * k {
+        let (n, i, l) = match rng.below(6) {
+            0 => (rand_u64_biased(&mut rng), rand_u64_biased(&mut rng), rand_u64_biased(&mut rng)),
+            1 => ((1 << 24) - 1 - rng.below(2), (1 << 16) - 1 - rng.below(2), (1 << 16) - 1 - rng.below(2)),
+            2 => (rng.below(1 << 24), 0, 0),
+            _ => {
+                let l = rng.range(1, 2000);
+                (rng.below(1 << 24), rng.below(l + 1), l)
+            }
+        };
+        op_enfnew(&mut out, n, i, l);
+        let v = if rng.chance(1, 4) { rng.next() } else { EpochNumberWithFraction::new_unchecked(n & 0xff_ffff, i & 0xffff, l & 0xffff).full_value() };
+        op_enf(&mut out, v);
+        // successor candidates around v
+        let e = EpochNumberWithFraction::from_full_value_unchecked(v);
+        let (pn, pi, pl) = (e.number(), e.index(), e.length());
+        let cands = [
+            EpochNumberWithFraction::new_unchecked(pn, (pi + 1) & 0xffff, pl),
+            EpochNumberWithFraction::new_unchecked((pn + 1) & 0xff_ffff, 0, rng.range(1, 2000)),
+            EpochNumberWithFraction::new_unchecked((pn + 1) & 0xff_ffff, 0, pl),
+            EpochNumberWithFraction::new_unchecked(pn, (pi + 2) & 0xffff, pl),
+            EpochNumberWithFraction::new_unchecked(pn, (pi + 1) & 0xffff, pl + 1),
+            EpochNumberWithFraction::new_unchecked((pn + 1) & 0xff_ffff, 1, pl),
+            EpochNumberWithFraction::new_unchecked((pn + 2) & 0xff_ffff, 0, pl),
+            EpochNumberWithFraction::new_unchecked(pn, pi, pl),
+        ];
+        for c in cands {
+            op_succ(&mut out, c.full_value(), v);
+        }
+        if rng.chance(1, 8) {
+            op_succ(&mut out, rng.next(), rng.next());
+        }
+    }
+    // a walk along a chain of epochs: every position has exactly one successor, no gaps
+    out.begin_case("epoch-walk");
+    {
+        let mut cur = EpochNumberWithFraction::new_unchecked(rng.below(1000), 0, rng.range(1, 6));
+        for _ in 0..400 * k {
+            let next = if cur.index() + 1 == cur.length() {
+                EpochNumberWithFraction::new_unchecked(cur.number() + 1, 0, rng.range(1, 6))
+            } else {
+                EpochNumberWithFraction::new_unchecked(cur.number(), cur.index() + 1, cur.length())
+            };
+            op_succ(&mut out, next.full_value(), cur.full_value());
+            if !next.is_successor_of(cur) || !next.is_well_formed() {
+                out.oracle_fail("epoch-walk-next-rejected", &format!("{:#x} after {:#x}", next.full_value(), cur.full_value()));
+            }
+            // skipping one position or repeating is never a successor
+            op_succ(&mut out, cur.full_value(), cur.full_value());
+            if cur.is_successor_of(cur) {
+                out.oracle_fail("epoch-walk-repeat-accepted", &format!("{:#x}", cur.full_value()));
+            }
+            cur = next;
+        }
+    }
+
+    // --- per-block rewards --------------------------------------------------------------------
+    out.begin_case("reward-points");
+    for _ in 0..3000 * k {
+        let len = match rng.below(6) {
+            0 => rand_u64_biased(&mut rng),
+            1 => 0,
+            _ => rng.range(1, 2000),
+        };
+        let start = if rng.chance(1, 6) { rand_u64_biased(&mut rng) } else { rng.range(0, 1_000_000) };
+        let (base, rem) = if rng.chance(1, 6) { (rand_u64_biased(&mut rng), rand_u64_biased(&mut rng)) } else { (rng.range(0, 1 << 40), rng.below(len.max(1))) };
+        let n = match rng.below(8) {
+            0 => start.wrapping_sub(1),
+            1 => start,
+            2 => start.wrapping_add(rem),
+            3 => start.wrapping_add(rem).wrapping_sub(1),
+            4 => start.wrapping_add(len).wrapping_sub(1),
+            5 => rand_u64_biased(&mut rng),
+            _ => start.wrapping_add(rng.below(len.max(1))),
+        };
+        op_reward(&mut out, start, len, base, rem, n);
+        let sec = if rng.chance(1, 5) { rand_u64_biased(&mut rng) } else { MAINNET_SECONDARY.wrapping_add(rng.below(5000)) };
+        let n2 = if rng.chance(1, 2) { n } else { start.wrapping_add(if len == 0 { 0 } else { sec % len }).wrapping_sub(rng.below(2)) };
+        op_sec(&mut out, start, len, sec, n2);
+    }
+    out.begin_case("halving");
+    for _ in 0..1500 * k {
+        let initial = if rng.chance(1, 4) { rand_u64_biased(&mut rng) } else { MAINNET_INITIAL };
+        let halving = match rng.below(6) {
+            0 => 0,
+            1 => rng.range(1, 5),
+            2 => rand_u64_biased(&mut rng),
+            _ => 8760,
+        };
+        let n = match rng.below(6) {
+            0 => rand_u64_biased(&mut rng),
+            1 => halving.saturating_mul(rng.range(0, 70)),
+            2 => halving.saturating_mul(rng.range(0, 70)).saturating_sub(1),
+            3 => halving.saturating_mul(63).saturating_add(rng.below(halving.saturating_mul(2).max(1))),
+            _ => rng.range(0, 1_000_000),
+        };
+        let a = op_prim(&mut out, &mut ctx, initial, halving, n);
+        // halving on schedule: one interval later the epoch reward is exactly half (floor)
+        if halving > 0 && n <= u64::MAX - halving {
+            let b = op_prim(&mut out, &mut ctx, initial, halving, n + halving);
+            if let (Some(a), Some(b)) = (a, b) {
+                if b != a / 2 {
+                    out.oracle_fail("halving-not-on-schedule", &format!("initial={initial} halving={halving} n={n}: {a} then {b}"));
+                }
+            }
+            if n % halving != halving - 1 {
+                let c = op_prim(&mut out, &mut ctx, initial, halving, n + 1);
+                if let (Some(a), Some(c)) = (a, c) {
+                    if a != c {
+                        out.oracle_fail("halving-inside-interval", &format!("initial={initial} halving={halving} n={n}"));
+                    }
+                }
+            }
+        }
+    }
+    // whole epochs: every length in thorough, a boundary-biased sample in quick
+    let lens: Vec<u64> = if opts.thorough() {
+        (1..=2000u64).chain([4095, 4096, 65535]).collect()
+    } else {
+        let mut v: Vec<u64> = vec![1, 2, 3, 299, 300, 301, 999, 1000, 1001, 1799, 1800];
+        for _ in 0..6 * opts.scale {
+            v.push(rng.range(1, 1800));
+        }
+        v
+    };
+    for len in lens {
+        out.begin_case(&format!("epoch-sums len={len}"));
+        let primary = match rng.below(5) {
+            0 => MAINNET_INITIAL >> rng.below(8),
+            1 => len * rng.range(0, 1 << 30),                      // remainder 0
+            2 => len * rng.range(0, 1 << 30) + (len - 1),          // remainder len-1
+            3 => rng.below(len),                                   // base 0
+            _ => rng.range(0, 1 << 50),
+        };
+        let sec = match rng.below(4) {
+            0 => MAINNET_SECONDARY,
+            1 => len * rng.range(0, 1 << 30) + (len - 1),
+            2 => len * rng.range(0, 1 << 30),
+            _ => rng.range(0, 1 << 50),
+        };
+        let start = if rng.chance(1, 10) { u64::MAX - len - rng.below(3) } else { rng.range(0, 100_000_000) };
+        epoch_sums(&mut out, start, len, primary, sec);
+    }
+
+    // --- next_epoch_ext ------------------------------------------------------------------------
+    let n_next = 4000 * k;
+    let mut i = 0;
+    while i < n_next {
+        out.begin_case("next");
+        for _ in 0..200 {
+            let inp = gen_next(&mut rng, &ctx);
+            do_next(&mut out, &mut ctx, &inp);
+            i += 1;
+        }
+    }
+    // a chain of epochs: feed each output back in (realistic trajectories; the invariant
+    // MIN <= L <= MAX is maintained by the implementation itself, which the oracle checks)
+    for chain in 0..(6 * k) {
+        out.begin_case(&format!("next-chain {chain}"));
+        let t = 14_400u64;
+        let halving = *rng.pick(&[2u64, 3, 5, 8760]);
+        let initial = MAINNET_INITIAL;
+        let mut len = *rng.pick(&[300u64, 1000, 1800, 743]);
+        let mut number = rng.below(10);
+        let mut r = initial >> (number / halving).min(63);
+        let mut compact = *rng.pick(&[0x1a08a8b1u32, 0x2001_0000, 0x1d00ffff]);
+        let mut start = rng.below(1000);
+        let mut prev_hr = {
+            let d = compact_to_difficulty(compact);
+            &d * (len + len / 40) / U256::from(t)
+        };
+        for _ in 0..60 {
+            let uncles = match rng.below(6) {
+                0 => 0,
+                1 => len / 40,
+                2 => len * 2,
+                _ => rng.range(0, len / 8 + 1),
+            };
+            let dur = match rng.below(6) {
+                0 => t * 1000,
+                1 => t * 250,
+                2 => t * 4000,
+                3 => rng.range(1, t * 1000),
+                _ => t * 1000 + rng.range(0, 4_000_000) - 2_000_000,
+            };
+            let inp = NextIn {
+                t, initial, halving, ort: (1, 40), number, base: r / len, rem: r % len, prev_hr: prev_hr.clone(), start, len,
+                hdr_number: start + len - 1, hdr_compact: compact, uncles, dur,
+            };
+            do_next(&mut out, &mut ctx, &inp);
+            // advance using the implementation's answer
+            ctx.consensus.epoch_duration_target = t;
+            let epoch = EpochExt::new_builder().number(number).base_block_reward(Capacity::shannons(r / len)).remainder_reward(Capacity::shannons(r % len))
+                .previous_epoch_hash_rate(prev_hr.clone()).start_number(start).length(len).compact_target(compact).build();
+            let header = HeaderBuilder::default().number(start + len - 1).epoch(EpochNumberWithFraction::new(1, 0, 1000)).compact_target(compact).build();
+            let mock = Mock { epoch, uncles, dur };
+            let c = &ctx.consensus;
+            match quiet(|| c.next_epoch_ext(&header, &mock).map(|n| n.epoch())) {
+                Some(Some(e)) => {
+                    number = e.number();
+                    r = e.primary_reward().as_u64();
+                    len = e.length();
+                    compact = e.compact_target();
+                    start = e.start_number();
+                    prev_hr = e.previous_epoch_hash_rate().clone();
+                }
+                _ => break,
+            }
+        }
+    }
+    out.finish(rule);
 }
